@@ -41,7 +41,9 @@ type PeerPlan struct {
 	Comment   string   `json:"comment"` // slave: last handshake line, starts with ';'
 	Outbound  []OutMsg `json:"outbound"`
 	// Answers maps a MID proposed by the station under test to the answer token the peer gives:
-	// + Y y (accept), - N n R r (reject), = L l H h (defer), !0 A0 a0 (accept from offset 0).
+	// + Y y (accept), - N n R r (reject), = L l H h (defer), !0 A0 a0 (accept from offset 0),
+	// !n An with n > 0 (resume from offset n: the peer then judges only the frame structure, the
+	// echoed offset and the checksum - what a resumed transfer carries is not settled by the documents).
 	Answers     map[string]string `json:"answers"`
 	BlockSize   int               `json:"block_size"` // 0 = PRNG 1..256 per data block, k = fixed
 	Comments    int               `json:"comments"`   // 0 none, 1 "; text" lines, 2 also ;PM: lines
@@ -77,9 +79,10 @@ type Proposal struct {
 
 // Result is everything the peer observed.
 type Result struct {
-	Complaints []Complaint
-	Err        error  // why the peer stopped early (nil = session ended by FQ per protocol)
-	LibError   string // a "*** ..." line from the station under test
+	ResumedTransfers int // transfers the peer asked to resume from an offset > 0
+	Complaints       []Complaint
+	Err              error  // why the peer stopped early (nil = session ended by FQ per protocol)
+	LibError         string // a "*** ..." line from the station under test
 	// Handshake of the station under test
 	LibSID, LibFW, LibPR, LibComment string
 	HandshakeLines                   []string
@@ -622,6 +625,7 @@ func (p *peer) answerAndReceive(block []Proposal) (bool, error) {
 	var fs strings.Builder
 	fs.WriteString("FS ")
 	kinds := make([]byte, len(block))
+	offsets := make([]int, len(block))
 	seen := map[string]bool{}
 	for i, pr := range block {
 		tok := p.plan.Answers[pr.MID]
@@ -637,6 +641,7 @@ func (p *peer) answerAndReceive(block []Proposal) (bool, error) {
 			return true, fmt.Errorf("peer plan: bad answer token %q", tok)
 		}
 		kinds[i] = a[0].Kind
+		offsets[i] = a[0].Offset
 		fs.WriteString(tok)
 	}
 	if p.plan.Comments >= 1 {
@@ -651,9 +656,14 @@ func (p *peer) answerAndReceive(block []Proposal) (bool, error) {
 	for i, pr := range block {
 		switch kinds[i] {
 		case '+':
-			data, err := p.readFrame(pr)
+			data, err := p.readFrame(pr, offsets[i])
 			if err != nil {
 				return true, err
+			}
+			if offsets[i] > 0 {
+				p.res.ResumedTransfers++
+				p.libDone[pr.MID] = true
+				continue
 			}
 			p.res.Received[pr.MID] = data
 			p.res.ReceivedSeq = append(p.res.ReceivedSeq, pr.MID)
@@ -666,7 +676,7 @@ func (p *peer) answerAndReceive(block []Proposal) (bool, error) {
 }
 
 // readFrame reads and judges one framed transfer from the station under test.
-func (p *peer) readFrame(pr Proposal) ([]byte, error) {
+func (p *peer) readFrame(pr Proposal, offset int) ([]byte, error) {
 	c, err := p.readByte()
 	if err != nil {
 		return nil, err
@@ -701,8 +711,8 @@ func (p *peer) readFrame(pr Proposal) ([]byte, error) {
 	if !ValidTitle(title) {
 		p.complain("frame-title", "transfer of %s: title %q is not 1..80 ASCII bytes (%d bytes)", pr.MID, trunc([]byte(title)), len(title))
 	}
-	if off != "0" {
-		p.complain("frame-offset", "transfer of %s: offset %q, requested 0", pr.MID, off)
+	if off != strconv.Itoa(offset) {
+		p.complain("frame-offset", "transfer of %s: offset %q, requested %d", pr.MID, off, offset)
 	}
 	var data []byte
 	var sum int
@@ -728,7 +738,7 @@ func (p *peer) readFrame(pr Proposal) ([]byte, error) {
 			}
 			p.res.LibBytes += size
 			p.res.DataBlocks[size]++
-			if first && size < 6 && pr.Code == 'C' {
+			if first && size < 6 && pr.Code == 'C' && offset == 0 {
 				p.complain("frame-first-block", "transfer of %s: the first data block (%d bytes) does not contain the 6-byte CRC/size header", pr.MID, size)
 			}
 			first = false
@@ -747,6 +757,9 @@ func (p *peer) readFrame(pr Proposal) ([]byte, error) {
 			}
 			if byte(sum)+ck != 0 {
 				p.complain("frame-checksum", "transfer of %s: data sum %#x + checksum %#x != 0", pr.MID, byte(sum), ck)
+			}
+			if offset > 0 {
+				return nil, nil // resumed transfer: structure, offset and checksum only
 			}
 			if len(data) != pr.CSize {
 				p.complain("frame-length", "transfer of %s: %d data bytes, proposal declared %d", pr.MID, len(data), pr.CSize)
